@@ -292,7 +292,8 @@ func checkClosure(sc *bw.Scenario, w *world, cl *closure, res *vresult, out *sim
 			pa, _ := sourceaddrs.ParseRemotePackage(p.Addr())
 			meta := b.RemotePackageMeta(pa)
 			if p.Commit == "" {
-				if meta != nil {
+				// (a blank PackageMeta carries no information; nil and blank are both accepted here)
+				if meta != nil && (meta.GitCommitID() != "" || meta.GitCommitMessage() != "") {
 					out.Violate("C08", "meta", "invented", fmt.Sprintf("variant %d: package %s had no metadata but the bundle reports %q", vi, p.Addr(), meta.GitCommitID()))
 				}
 			} else if meta == nil || meta.GitCommitID() != p.Commit || meta.GitCommitMessage() != p.Msg {
